@@ -328,8 +328,8 @@ fn mk_policies(rng: &mut StdRng, mask: u8, owner_idx: Option<u64>, strict_height
 }
 
 fn pick_mask(rng: &mut StdRng, k: u64) -> u8 {
-    // every one of the 64 masks is reached by the run counter; extra weight on the extremes
-    match rng.gen_range(0..8) { 0 => 0, 1 => 63, _ => (k % 64) as u8 ^ rng.gen_range(0..64) }
+    // the run counter walks through all 64 masks (a permutation, so that a handful of runs already mixes the bits); later runs are random
+    if k < 128 { ((k * 37 + 5) % 64) as u8 } else { rng.gen_range(0..64) }
 }
 
 struct Parts { inputs: Vec<Input>, outputs: Vec<Output>, witnesses: Vec<Witness>, policies: Policies, pidx: usize }
